@@ -308,13 +308,14 @@ def post_priv_traverse(args, kwargs, pre, out):
     except ValueError:
         return NotImplemented
     notation, prefix = _notation(path)
+    # class counters say "this input class was exercised", whatever the outcome
+    if notation != "none":
+        ctx.count("notation:" + notation)
+    ctx.count("prefix:" + prefix)
     if out[0] == "exc":
         ctx.violation("priv-traverse-refuses-valid-path:" + ("uppercase-M-prefix" if prefix == "M" else "marker-" + notation), f"traverse({path!r}) raised {out[1]!r}", case)
         return
     _cmp_priv_node(ctx, "priv-traverse", out[1], node, case)
-    if notation != "none":
-        ctx.count("notation:" + notation)
-    ctx.count("prefix:" + prefix)
     ctx.case(case)
 
 
@@ -345,11 +346,11 @@ def post_pub_traverse(args, kwargs, pre, out):
         node = bip32.node_pub(pt, nd["c"], idx, depth=nd["depth"], parent_fp=nd["fp"], child_num=nd["cn"])
     except ValueError:
         return NotImplemented
+    ctx.count("pub-prefix:" + prefix)
     if out[0] == "exc":
         ctx.violation("pub-traverse-refuses-valid-path:" + ("uppercase-M-prefix" if prefix == "M" else "lowercase-m-prefix"), f"HDPublicKey.traverse({path!r}) raised {out[1]!r}", case)
         return
     _cmp_pub_fields(ctx, "pub-traverse", out[1], node["point"], node["chain_code"], node["depth"], node["parent_fp"], node["child_num"], case)
-    ctx.count("pub-prefix:" + prefix)
     ctx.case(case)
 
 
